@@ -449,10 +449,7 @@ def build(choose, common=False, bp_base=True):
                     l.invstyle = choose(5, "%s.L%d.invstyle" % (t.name, li))
                 if inv is not None and rate is not None:
                     l.rate_first = bool(choose(2, "%s.L%d.ratefirst" % (t.name, li)))
-                # an urgent/committed location may not carry a time invariant or a rate
-                if l.kind:
-                    l.inv = None
-                    l.rate = None
+                # (urgent and committed locations may carry an invariant and a rate like any other location)
             l.name = (("L%d" % li) if shortnames else ("%s_L%d" % (t.name, li))) if named else None
             t.locs.append(l)
         if ti == 0:
